@@ -70,3 +70,10 @@ pub fn __any_ge(s: &[u8], x: u8) -> (r: bool)
 //@ assume std::<[T]>::reverse : std documentation: reverses the order of elements in the slice, in place
 pub assume_specification<T>[ <[T]>::reverse ](s: &mut [T])
     ensures final(s)@.len() == old(s)@.len(), forall|i: int| 0 <= i < old(s)@.len() ==> final(s)@[i] == old(s)@[old(s)@.len() - 1 - i];
+
+//@ assume std::PartialOrd::le(default) : rule R16: `*a <= *b` on a type whose PartialOrd::partial_cmp is `Some(self.cmp(other))` (as for BigInt/BigUint) is `a.cmp(b) != Greater` (std default method `le`)
+pub open spec fn ord_le(o: core::cmp::Ordering) -> bool { o != core::cmp::Ordering::Greater }
+
+//@ assume std::<Ordering as PartialEq>::eq : std's `#[derive(PartialEq)]` on the field-less enum core::cmp::Ordering is structural equality
+pub assume_specification[ <core::cmp::Ordering as core::cmp::PartialEq>::eq ](a: &core::cmp::Ordering, b: &core::cmp::Ordering) -> (r: bool)
+    ensures r == (*a == *b);
